@@ -16,6 +16,11 @@ def main():
     if os.path.exists(hc):
         hooks_commits = [l.split()[0] for l in open(hc) if l.strip() and not l.startswith("#")]
     checks, na = [], []
+    rd = os.path.join(VERIF, "engine", "registry.d")
+    if os.path.isdir(rd):
+        for f in sorted(os.listdir(rd)):
+            if f.endswith(".json"):
+                registry.CHECKS[f[:-5].upper()] = json.load(open(os.path.join(rd, f)))
     for p in props:
         pid = p["id"]
         c = registry.CHECKS.get(pid)
